@@ -171,9 +171,29 @@ def check_iterate(ctx):
               ins.name, ins.loc, "insert_into returns the decoder's status", "insert_into drops the decoder status")
 
 
+def check_scratch_reset(ctx):
+    """The group-commit scratch batch is shared by all groups: whoever built a
+    group into it empties it again on every path, failed writes included -
+    otherwise the next group is appended to the updates of a failed one and
+    commits them."""
+    from ..rules import must_pass_before_success, rel_edge
+    f = ctx.fn("ldb_write", "src/db_impl.c")
+    must_pass_before_success(ctx, "T1-group-scratch-reset", "ldb_write", f,
+                             lambda e: is_call(e, "ldb_build_batch_group"),
+                             lambda e: is_call(e, "ldb_batch_reset") and argkey(e, 0) == "db->tmp_batch",
+                             "a group built into the shared scratch batch is cleared again on every path",
+                             success=lambda e, st: True,
+                             edge_pass=lambda lit: rel_edge(lit[0], lit[1], "!=", "write_batch", "db->tmp_batch"))
+    g = ctx.fn("ldb_build_batch_group", "src/db_impl.c")
+    res = [key(e["rhs"]) for b, i, e in g.events("asg") if key(e["lhs"]) == "result"]
+    ctx.check("db->tmp_batch" in res and "first->batch" in res, "T1-group-scratch-reset", "group-uses-scratch", g.name, g.loc,
+              "a merged group is built in db->tmp_batch, a single writer's batch is used as is", "group result comes from %s" % res)
+
+
 def check(ctx):
     witness.run(ctx, "C04")
     check_write(ctx)
+    check_scratch_reset(ctx)
     check_group_ack(ctx)
     check_iterate(ctx)
     wal.check_reassembly(ctx)
